@@ -1,6 +1,184 @@
-//! Queue arm: scripted request / completion / consumption sequences against the real
-//! ScanScheduler with a gated store (filled in below).
-use crate::worker::Out;
+//! Queue arm: scripted submit / complete / consume / close sequences against the real
+//! ScanScheduler over a gated store, on a current-thread runtime (no wall-clock dependence:
+//! after every action the other tasks run to quiescence by yielding).  The observations are
+//! compared with the model's IoQueueState transitions (stream `queue`, checker `chk_queue`).
+use crate::refimpl::R;
+use crate::store::Gate;
+use crate::worker::{coq_ranges, open, Out};
+use bytes::Bytes;
+use futures::future::BoxFuture;
+use futures::FutureExt;
 use hxlib::util::{Args, Rng};
+use serde_json::json;
+use std::sync::Arc;
 
-pub fn run(_out: &mut Out, _rng: &mut Rng, _mx: u64, _args: &Args) {}
+type Fut = BoxFuture<'static, lance_core::Result<Vec<Bytes>>>;
+
+async fn settle() {
+    for _ in 0..150 {
+        tokio::task::yield_now().await;
+    }
+}
+
+fn batch_of(start: u64) -> u64 {
+    (start - 10) / 300
+}
+
+fn held_obs(gate: &Gate) -> Vec<(u64, u64)> {
+    let mut v: Vec<(u64, u64)> = gate.held.lock().unwrap().iter().map(|h| (batch_of(h.1), h.2 - h.1)).collect();
+    v.sort();
+    v
+}
+
+fn obs_coq(held: &[(u64, u64)], code: u64) -> String {
+    format!("({}, {})", coq_ranges(held), code)
+}
+
+async fn script(out: &mut Out, rng: &mut Rng, mx: u64) {
+    let cap = *rng.pick(&[1usize, 1, 2, 2, 3, 4]);
+    let buf = *rng.pick(&[0u64, 1, 2, 3, 5, 8, 12, 1000]);
+    let bs = *rng.pick(&[0u64, 1, 3]);
+    let flen = 4096u64;
+    let (a, b) = (7u64, rng.below(256));
+    let gate = Arc::new(Gate::default());
+    let o = open(flen, a, b, bs, cap, buf, None, Some(gate.clone())).await;
+    let data = o.data.clone();
+    let mut file = Some(o.file);
+    let mut sched = Some(o.sched);
+    let mut futs: Vec<Option<Fut>> = vec![];
+    let mut reqs: Vec<Vec<R>> = vec![];
+    let mut evs: Vec<String> = vec![];
+    let mut obs: Vec<String> = vec![];
+    let mut human_evs = vec![];
+    let mut prios: Vec<u64> = (0..12).collect();
+    for i in (1..prios.len()).rev() {
+        let j = rng.below(i as u64 + 1) as usize;
+        prios.swap(i, j);
+    }
+    let mut max_held = 0usize;
+    let mut closed = false;
+    let mut bad: Vec<String> = vec![];
+    let steps = rng.range(6, 18);
+    for step in 0..steps {
+        let can_submit = !closed && futs.len() < 8;
+        let n_held = gate.held.lock().unwrap().len();
+        let unconsumed: Vec<usize> = (0..futs.len()).filter(|j| futs[*j].is_some()).collect();
+        let choice = rng.below(100);
+        let mut code = 3u64;
+        if (choice < 40 || futs.is_empty()) && can_submit {
+            let j = futs.len() as u64;
+            let k = rng.range(1, 3);
+            let sz = rng.range(1, mx.min(6));
+            let lo = 300 * j + 10;
+            let rs: Vec<R> = (0..k).map(|i| (lo + i * (sz + bs + 5), lo + i * (sz + bs + 5) + sz)).collect();
+            let prio = if rng.chance(1, 6) { u64::MAX - prios[j as usize] } else { prios[j as usize] };
+            let f = file.as_ref().unwrap().submit_request(rs.iter().map(|r| r.0..r.1).collect(), prio).boxed();
+            futs.push(Some(f));
+            reqs.push(rs.clone());
+            evs.push(format!("QSubmit {} {}", prio, coq_ranges(&rs)));
+            human_evs.push(json!({"submit": {"prio": prio, "ranges": rs}}));
+        } else if choice < 70 && n_held > 0 {
+            let (id, s, e) = {
+                let g = gate.held.lock().unwrap();
+                let h = &g[rng.below(g.len() as u64) as usize];
+                (h.0, h.1, h.2)
+            };
+            gate.release_id(id);
+            evs.push(format!("QComplete {} {}", batch_of(s), e - s));
+            human_evs.push(json!({"complete": {"batch": batch_of(s), "range": [s, e]}}));
+        } else if choice < 93 && !unconsumed.is_empty() {
+            let j = *rng.pick(&unconsumed);
+            let polled = futures::poll!(futs[j].as_mut().unwrap().as_mut());
+            match polled {
+                std::task::Poll::Pending => code = 0,
+                std::task::Poll::Ready(Ok(bufs)) => {
+                    code = 1;
+                    futs[j] = None;
+                    let ok = bufs.len() == reqs[j].len() && bufs.iter().zip(reqs[j].iter()).all(|(b, r)| b.as_ref() == &data[r.0 as usize..r.1 as usize]);
+                    if !ok {
+                        bad.push(format!("batch {j}: wrong bytes"));
+                    }
+                }
+                std::task::Poll::Ready(Err(_)) => {
+                    code = 2;
+                    futs[j] = None;
+                    if !closed {
+                        bad.push(format!("batch {j}: error although the scheduler is alive and no read failed"));
+                    }
+                }
+            }
+            evs.push(format!("QConsume {}", j));
+            human_evs.push(json!({"consume": j, "result": code}));
+        } else if !closed && step >= 2 && !futs.is_empty() && rng.chance(1, 3) {
+            file = None;
+            sched = None;
+            closed = true;
+            evs.push("QClose".into());
+            human_evs.push(json!("close"));
+        } else {
+            continue;
+        }
+        settle().await;
+        let held = held_obs(&gate);
+        max_held = max_held.max(held.len());
+        obs.push(obs_coq(&held, code));
+    }
+    // liveness: let everything finish; every future must resolve
+    let mut rounds = 0;
+    while futs.iter().any(|f| f.is_some()) && rounds < 400 {
+        gate.release_all();
+        settle().await;
+        for j in 0..futs.len() {
+            if let Some(f) = futs[j].as_mut() {
+                match futures::poll!(f.as_mut()) {
+                    std::task::Poll::Pending => {}
+                    std::task::Poll::Ready(Ok(bufs)) => {
+                        futs[j] = None;
+                        let ok = bufs.len() == reqs[j].len() && bufs.iter().zip(reqs[j].iter()).all(|(b, r)| b.as_ref() == &data[r.0 as usize..r.1 as usize]);
+                        if !ok {
+                            bad.push(format!("batch {j}: wrong bytes"));
+                        }
+                    }
+                    std::task::Poll::Ready(Err(_)) => {
+                        futs[j] = None;
+                        if !closed {
+                            bad.push(format!("batch {j}: error although the scheduler is alive and no read failed"));
+                        }
+                    }
+                }
+            }
+        }
+        rounds += 1;
+    }
+    let stuck: Vec<usize> = (0..futs.len()).filter(|j| futs[*j].is_some()).collect();
+    drop(file);
+    drop(sched);
+    let human = json!({"io_capacity": cap, "io_buffer_size": buf, "block_size": bs, "max_iop": mx, "script": human_evs,
+        "max_reads_in_flight": max_held, "stuck": stuck});
+    out.count("queue:scripts");
+    out.count(if closed { "queue:with_close" } else { "queue:no_close" });
+    if !stuck.is_empty() {
+        out.fail(None, "a submitted request never completed although every read was released (deadlock / lost wake-up)", human.clone());
+    } else if max_held > cap {
+        out.fail(None, "more reads in flight than io_parallelism allows", human.clone());
+    } else if !bad.is_empty() {
+        out.fail(None, &format!("queued request returned a wrong result: {}", bad.join("; ")), human.clone());
+    } else {
+        out.ok();
+    }
+    out.nontrivial.push(format!("q{cap},{buf},{bs},{mx},{:?}", evs));
+    out.case(
+        "queue",
+        format!("(({}, {}), ({}, {}), [{}])", cap, buf, bs, mx, evs.join("; ")),
+        format!("[{}]", obs.join("; ")),
+        human,
+    );
+}
+
+pub fn run(out: &mut Out, rng: &mut Rng, mx: u64, args: &Args) {
+    let n = args.vol(30, 120);
+    let rt = tokio::runtime::Builder::new_current_thread().enable_all().build().unwrap();
+    for _ in 0..n {
+        rt.block_on(script(out, rng, mx));
+    }
+}
